@@ -7,6 +7,7 @@ let () =
     | "cli" -> M_cli.handle
     | "prep" -> M_prep.handle
     | "cycles" -> M_cycles.handle
+    | "resolve" -> M_resolve.handle
     | _ -> prerr_endline ("unknown component " ^ comp); exit 2 in
   let out = Buffer.create 65536 in
   (try while true do
